@@ -11,7 +11,16 @@ import re
 
 QUALS = ["", " <const>", " <comptime>"]
 
-PRELUDE = """local function cond(): boolean <noinline> return true end
+# forms of a reference produced by preprocessor interpolation (the Id node then carries a forced symbol)
+INTERP_STYLES = ["expr", "macro", "ppfor"]
+
+PRELUDE = """## local function zuse(s)
+  sink(#[s]#)
+## end
+## local function zasg(s)
+  #[s]# = 1
+## end
+local function cond(): boolean <noinline> return true end
 local function sel(): integer <noinline> return 1 end
 local function sink(a: integer) <noinline> end
 """
@@ -38,9 +47,26 @@ def hexz(v):
 
 
 class Printer:
-    def __init__(self, type_names):
+    def __init__(self, type_names, style="expr"):
         self.lines = []
         self.type_names = type_names
+        self.style = style
+        self.macro_lines = {}     # statement line -> line of the macro body the diagnostic may point at
+
+    def forced(self, ind, kind, x, out):
+        """sink(#[vX]#) / #[vX]# = 1, printed as a plain interpolation, through a macro taking the symbol,
+        or inside a `## for` generated body.  Returns the id (line) of the statement."""
+        plain = "sink(#[v%d]#)" % x if kind == "UF" else "#[v%d]# = 1" % x
+        if self.style == "macro":
+            ln = self.emit(ind, "## %s(v%d)" % ("zuse" if kind == "UF" else "zasg", x))
+            self.macro_lines[ln] = 2 if kind == "UF" else 5
+        elif self.style == "ppfor":
+            self.emit(ind, "## for _k=1,1 do")
+            ln = self.emit(ind, plain)
+            self.emit(ind, "## end")
+        else:
+            ln = self.emit(ind, plain)
+        out += [str(ln), kind, str(x)]
 
     def emit(self, ind, text):
         self.lines.append("  " * ind + text)
@@ -61,6 +87,10 @@ class Printer:
             ln = self.emit(ind, "v%d = 1" % s[1]); out += [str(ln), "A", str(s[1])]
         elif t == 'use':
             ln = self.emit(ind, "sink(v%d)" % s[1]); out += [str(ln), "U", str(s[1])]
+        elif t == 'usef':
+            self.forced(ind, "UF", s[1], out)
+        elif t == 'assignf':
+            self.forced(ind, "AF", s[1], out)
         elif t == 'func':
             ln = self.emit(ind, "local function f%d(%s)" % (s[1], ", ".join("v%d: integer" % p for p in s[2])))
             out += [str(ln), "F", str(s[1]), str(len(s[2]))] + [str(p) for p in s[2]]
@@ -122,9 +152,24 @@ class Printer:
             raise ValueError(t)
 
 
-def print_program(body, embedding, type_names):
-    """Returns (nelua_source, model_text)."""
-    p = Printer(type_names)
+def force_refs(b, rng, prob=1.0):
+    """Every use / assignment of a variable becomes its interpolated form (with probability prob)."""
+    out = []
+    for s in b:
+        t = s[0]
+        if t == 'use' and rng.random() < prob: out.append(('usef', s[1]))
+        elif t == 'assign' and rng.random() < prob: out.append(('assignf', s[1]))
+        elif t == 'func': out.append(('func', s[1], s[2], force_refs(s[3], rng, prob)))
+        elif t in ('do', 'while', 'repeat', 'for', 'defer'): out.append((t, force_refs(s[1], rng, prob)))
+        elif t == 'if': out.append(('if', force_refs(s[1], rng, prob), force_refs(s[2], rng, prob)))
+        elif t == 'switch': out.append(('switch', [force_refs(x, rng, prob) for x in s[1]], s[2], force_refs(s[3], rng, prob)))
+        else: out.append(s)
+    return out
+
+
+def print_program(body, embedding, type_names, style="expr"):
+    """Returns (nelua_source, model_text, macro_lines)."""
+    p = Printer(type_names, style)
     for l in PRELUDE.strip("\n").split("\n"):
         p.emit(0, l)
     out = []
@@ -171,7 +216,7 @@ def print_program(body, embedding, type_names):
         p.emit(0, "host(1)")
     else:
         raise ValueError(embedding)
-    return "\n".join(p.lines) + "\n", " ".join(out)
+    return "\n".join(p.lines) + "\n", " ".join(out), p.macro_lines
 
 
 ERR_RE = re.compile(r"^[^\n:]*:(\d+):(\d+): error: (.*)$", re.M)
@@ -191,6 +236,7 @@ def classify(msg):
     if "expected at most" in m and "arguments" in m: return "arity"
     if "out of range" in m: return "range"
     if "out of bounds" in m or "cannot index negative" in m: return "index"
+    if "but got nil" in m: return "nilarg"
     return "other:" + m[:80]
 
 
